@@ -443,3 +443,179 @@ def mutation_keys(ts, by_individual):
         who = ("i", int(ind[m.node])) if (by_individual and ind[m.node] in two) else ("n", int(m.node))
         keys.append((float(ts.sites_position[m.site]), m.derived_state, who))
     return keys
+
+
+# ----------------------------------------------------------------------------- end-to-end helpers (stage C)
+
+F5_MSG = "Use fewer rescaling intervals"
+
+
+def roundtrip(ts):
+    """Inputs of the end-to-end oracles go through the replay format first, so that a replay is the same input."""
+    return gen.ts_from_jsonable(gen.ts_to_jsonable(ts))
+
+
+def draw_date_kw(rng, info, rescale=None):
+    kw = dict(max_iterations=int(rng.choice([1, 2, 3, 5])))
+    r = rng.random() if rescale is None else (0.9 if rescale else 0.0)
+    if r < 0.25:
+        kw["rescaling_intervals"] = 0
+    else:
+        kw["rescaling_intervals"] = int(rng.choice([1, 2, 3, 5]))
+        kw["rescaling_iterations"] = int(rng.choice([1, 3, 5]))
+    if rng.random() < 0.4:
+        kw["match_segregating_sites"] = True
+    if rng.random() < 0.2:
+        kw["max_shape"] = float(rng.choice([10.0, 100.0]))
+    kw["mutation_rate"] = float(info["mu"])
+    return kw
+
+
+def run_vg(ts, kw, singletons_phased, return_fit=False):
+    """tsdate.date(method=variational_gamma); exceptions are data."""
+    from . import dating
+    r = dating.run_date(ts, method="variational_gamma", singletons_phased=singletons_phased,
+                        return_fit=return_fit, **kw)
+    r["f5"] = (not r["ok"]) and r["exc"] == "AssertionError" and F5_MSG in r["msg"]
+    return r
+
+
+def _md(obj):
+    md = obj.metadata
+    if isinstance(md, dict):
+        return (float(md.get("mn", np.nan)), float(md.get("vr", np.nan)))
+    return (np.nan, np.nan)
+
+
+def output_signature(out):
+    """Row-order independent description of the dated output: per mutation (position, derived state, node,
+    time, posterior mean, posterior variance) sorted; node times; node metadata."""
+    rows = []
+    for m in out.mutations():
+        mn, vr = _md(m)
+        rows.append((float(out.sites_position[m.site]), m.derived_state, int(m.node), float(m.time), mn, vr))
+    rows.sort(key=lambda r: (r[0], r[1], r[2], r[3] if r[3] == r[3] else -1.0))
+    nmd = np.array([_md(n) for n in out.nodes()], dtype=float).reshape(-1, 2)
+    return dict(muts=rows, nodes_time=np.array(out.nodes_time, dtype=float), nodes_md=nmd)
+
+
+def _close(a, b, rtol=1e-9):
+    a = np.asarray(a, dtype=float)
+    b = np.asarray(b, dtype=float)
+    if a.shape != b.shape:
+        return False
+    if a.size == 0:
+        return True
+    fin = np.isfinite(a) & np.isfinite(b)
+    if np.any(np.isfinite(a) != np.isfinite(b)):
+        return False
+    scale = max(1e-300, float(np.max(np.abs(a[fin]))) if np.any(fin) else 1.0)
+    return bool(np.all(np.abs(a[fin] - b[fin]) <= rtol * np.maximum(np.abs(a[fin]), np.abs(b[fin])) + 1e-12 * scale))
+
+
+def compare_signatures(s0, s1):
+    """Returns list of kinds in which two dated outputs differ."""
+    kinds = []
+    if [r[:3] for r in s0["muts"]] != [r[:3] for r in s1["muts"]]:
+        kinds.append("rephasing-changes-placement")
+    else:
+        if not _close([r[3] for r in s0["muts"]], [r[3] for r in s1["muts"]]):
+            # same placement, different times: is it only *which* of several mutations stacked on one node at one
+            # site is the older one (tskit orders those by input row order)?
+            a = sorted((r[0], r[2], r[3]) for r in s0["muts"])
+            b = sorted((r[0], r[2], r[3]) for r in s1["muts"])
+            group = {}
+            for r in s0["muts"]:
+                group[(r[0], r[2])] = group.get((r[0], r[2]), 0) + 1
+            mism = [(x[0], x[2]) for x, y in zip(s0["muts"], s1["muts"]) if not _close([x[3]], [y[3]])]
+            if ([x[:2] for x in a] == [x[:2] for x in b] and _close([x[2] for x in a], [x[2] for x in b])
+                    and all(group[g] >= 2 for g in mism)):
+                kinds.append("stacked-singletons-order-follows-input-rows")
+            else:
+                kinds.append("rephasing-changes-mutation-times")
+        if not _close([r[4:6] for r in s0["muts"]], [r[4:6] for r in s1["muts"]], rtol=1e-7):
+            kinds.append("rephasing-changes-mutation-metadata")
+    if not _close(s0["nodes_time"], s1["nodes_time"]):
+        kinds.append("rephasing-changes-node-times")
+    if not _close(s0["nodes_md"], s1["nodes_md"], rtol=1e-7):
+        kinds.append("rephasing-changes-node-metadata")
+    return kinds
+
+
+def node_change_kinds(ts_in, ts_out, singletons_phased):
+    """The first two sentences of C22 on one (input, output) pair; mutations matched per site by (derived state,
+    individual-or-node), never by row."""
+    kinds = []
+    if singletons_phased:
+        if sorted(mutation_keys(ts_in, False)) != sorted(mutation_keys(ts_out, False)):
+            kinds.append("node-changed-with-singletons-phased")
+    else:
+        if sorted(mutation_keys(ts_in, True)) != sorted(mutation_keys(ts_out, True)):
+            kinds.append("node-moved-outside-individual")
+    return kinds
+
+
+def count_switched(ts_in, ts_out):
+    a = sorted(mutation_keys(ts_in, False))
+    b = sorted(mutation_keys(ts_out, False))
+    return sum(1 for x, y in zip(a, b) if x != y)
+
+
+def check_counts(ts, fit, segsites, rescaled, tol=1e-9):
+    """C23 stated on what `infer` leaves behind.  Returns (list of (kind, what), stats)."""
+    bad = []
+    lik = (fit.edge_likelihoods if segsites else fit.sizebiased_likelihoods)[:, 0]
+    naive, _ = naive_counts(ts, size_biased=not segsites)
+    mblock = np.asarray(fit.mutation_blocks)
+    bedges = np.asarray(fit.block_edges).reshape(-1, 2)
+    phase = np.asarray(fit.mutation_phase)
+    medge = np.asarray(fit.mutation_edges)
+    sing = np.flatnonzero(mblock != NULL)
+    stats = dict(singletons=int(sing.size), blocks=int(bedges.shape[0]), switched=0, nan_phase=0)
+    if not rescaled:
+        if not _close(lik, naive, rtol=tol):
+            bad.append(("counts-touched-without-rescaling", "rescaling disabled but the mutation counts differ from a direct tally"))
+        return bad, stats
+    blk = np.zeros(lik.size, dtype=bool)
+    blk[bedges.flatten()] = True
+    exp = naive.copy()
+    exp[blk] = 0.0
+    exp_swapped = exp.copy()
+    valid = 0
+    for m in sing:
+        i, j = (int(x) for x in bedges[mblock[m]])
+        p = float(phase[m])
+        placed = int(medge[m])
+        if placed not in (i, j):
+            bad.append(("placed-edge-not-in-block", f"mutation {m} placed on edge {placed}, block edges {(i, j)}"))
+            continue
+        if placed == j:
+            stats["switched"] += 1
+        if p != p:
+            stats["nan_phase"] += 1
+            continue
+        valid += 1
+        if p < 0.5 - 1e-12:
+            bad.append(("final-phase-below-half", f"mutation {m}: reported phase {p} < 1/2"))
+        other = j if placed == i else i
+        exp[placed] += p
+        exp[other] += 1 - p
+        exp_swapped[placed] += 1 - p
+        exp_swapped[other] += p
+    scale = 1.0 + float(np.max(np.abs(exp))) if exp.size else 1.0
+    d_blk = np.abs(lik - exp)[blk]
+    d_oth = np.abs(lik - exp)[~blk]
+    if d_oth.size and np.max(d_oth) > tol * scale:
+        e = int(np.flatnonzero(~blk)[np.argmax(d_oth)])
+        bad.append(("other-edge-count-changed", f"edge {e} (in no block): count {lik[e]} but a direct tally gives {exp[e]}"))
+    if d_blk.size and np.max(d_blk) > tol * scale:
+        e = int(np.flatnonzero(blk)[np.argmax(d_blk)])
+        if np.max(np.abs(lik - exp_swapped)[blk]) <= tol * scale:
+            bad.append(("placed-branch-gets-smaller-share",
+                        f"edge {e}: count {lik[e]}, required {exp[e]}; counts equal the allocation with the two shares of every singleton swapped"))
+        else:
+            bad.append(("block-edge-count-wrong", f"edge {e}: count {lik[e]}, required {exp[e]} (sum of the placed/other shares)"))
+    tot = float(np.sum(lik[blk])) if np.any(blk) else 0.0
+    if abs(tot - valid) > tol * (1 + valid):
+        bad.append(("singleton-total-not-one", f"block edges carry {tot} mutations in total for {valid} singletons"))
+    return bad, stats
